@@ -226,13 +226,30 @@ Section Lemmas.
   Qed.
 
   (* ---------------- on-disk form ---------------- *)
-  Lemma to_python_disk : forall a r salt d,
+  (* pointwise form: only the two strings that are actually written need to decode back *)
+  Lemma to_python_disk_pt : forall a r salt d,
+    b64dec (b64enc salt) = Some salt -> b64dec (b64enc d) = Some d ->
     to_python a r (disk_of salt d) = (r, Ok (PDigest salt d a)).
   Proof.
-    intros a r salt d. unfold Challenge.to_python, Challenge.disk_of, dict_b64.
+    intros a r salt d Ls Ld. unfold Challenge.to_python, Challenge.disk_of, dict_b64.
     destruct k_salt_digest as [K1 [K2 K3]].
-    cbn [assoc]. rewrite K2, K1, K3. cbn [b64arg]. now rewrite !b64_law.
+    cbn [assoc]. rewrite K2, K1, K3. cbn [b64arg]. now rewrite Ls, Ld.
   Qed.
+
+  Lemma saveload_keeps_pt : forall a req dflt st salt d r1 dv,
+    b64dec (b64enc salt) = Some salt -> b64dec (b64enc d) = Some d ->
+    c_val st = PDigest salt d a ->
+    setdefault a (c_rng st) dflt = (r1, Ok dv) ->
+    cfg_saveload a req dflt st = (mk_cst r1 (c_val st), Ok (c_val st)).
+  Proof.
+    intros a req dflt st salt d r1 dv Ls Ld V D. unfold Challenge.cfg_saveload. rewrite V. cbn [Challenge.to_basic].
+    unfold Challenge.cfg_new. rewrite D. unfold Challenge.cfg_load. cbn [c_rng c_val].
+    rewrite (to_python_disk_pt _ _ _ _ Ls Ld). reflexivity.
+  Qed.
+
+  Lemma to_python_disk : forall a r salt d,
+    to_python a r (disk_of salt d) = (r, Ok (PDigest salt d a)).
+  Proof. intros. apply to_python_disk_pt; apply b64_law. Qed.
 
   Theorem digest_roundtrip : forall a r salt d a' t,
     to_basic (PDigest salt d a') = Ok t ->
@@ -422,6 +439,150 @@ Theorem challenge_other_str_fails_utf8 : forall (H : N -> bytes -> bytes),
   challenge H utf8_enc (stored_of a salt (H a (salt ++ bs))) (PStr t) = Err EValue.
 Proof. intros H HI. exact (challenge_other_str_fails H utf8_enc HI utf8_enc_inj). Qed.
 End Utf8.
+
+(* ===================== the concrete base64 codec round-trips on bytes =====================
+   b64_decode is CPython's lenient a2b_base64; on the output of b64_encode it returns the input,
+   for every list of real bytes (< 256). Removes the b64_law premise for the concrete codec. *)
+Section Base64.
+Open Scope N_scope.
+Definition sext_ok (v : N) : bool :=
+  match b64_val (b64_char v) with Some v' => (v' =? v) && negb (b64_char v =? pad_char) && (b64_char v <? 128) | None => false end.
+
+Lemma below_forall : forall (f : N -> bool) (n : nat),
+  forallb f (map N.of_nat (seq 0 n)) = true -> forall v, (N.to_nat v < n)%nat -> f v = true.
+Proof.
+  intros f n F v L. rewrite forallb_forall in F. apply F.
+  apply in_map_iff. exists (N.to_nat v). split; [apply N2Nat.id|]. apply in_seq. lia.
+Qed.
+
+Lemma sext_all : forall v, v < 64 -> sext_ok v = true.
+Proof. intros v L. apply (below_forall sext_ok 64); [now vm_compute|lia]. Qed.
+
+Lemma sext_facts : forall v, v < 64 ->
+  b64_val (b64_char v) = Some v /\ (b64_char v =? pad_char) = false /\ (b64_char v <? 128) = true.
+Proof.
+  intros v L. pose proof (sext_all v L) as S. unfold sext_ok in S.
+  destruct (b64_val (b64_char v)) as [v'|]; [|discriminate].
+  apply andb_true_iff in S. destruct S as [S S3]. apply andb_true_iff in S. destruct S as [S1 S2].
+  apply N.eqb_eq in S1. subst. apply negb_true_iff in S2. auto.
+Qed.
+
+Ltac Zify.zify_post_hook ::= Z.to_euclidean_division_equations.
+
+Lemma go_char : forall v r qp left pads out, v < 64 ->
+  b64_go (b64_char v :: r) qp left pads out =
+  match qp with
+  | 0 => b64_go r 1 v 0 out
+  | 1 => b64_go r 2 (v mod 16) 0 ((left * 4 + v / 16) :: out)
+  | 2 => b64_go r 3 (v mod 4) 0 ((left * 16 + v / 4) :: out)
+  | _ => b64_go r 0 0 0 ((left * 64 + v) :: out)
+  end.
+Proof.
+  intros v r qp left pads out L. destruct (sext_facts v L) as [F1 [F2 _]].
+  cbn [b64_go]. rewrite F2, F1. reflexivity.
+Qed.
+
+Definition byte (x : N) : Prop := x < 256.
+
+Lemma s1 : forall x, byte x -> x / 4 < 64. Proof. unfold byte. intros. lia. Qed.
+Lemma s2 : forall x y, byte y -> (x mod 4) * 16 + y / 16 < 64. Proof. unfold byte. intros. lia. Qed.
+Lemma s2' : forall x, (x mod 4) * 16 < 64. Proof. intros. lia. Qed.
+Lemma s3 : forall y z, byte z -> (y mod 16) * 4 + z / 64 < 64. Proof. unfold byte. intros. lia. Qed.
+Lemma s3' : forall y, (y mod 16) * 4 < 64. Proof. intros. lia. Qed.
+Lemma s4 : forall z, z mod 64 < 64. Proof. intros. lia. Qed.
+
+Lemma r1 : forall x y, byte y -> x / 4 * 4 + ((x mod 4) * 16 + y / 16) / 16 = x. Proof. unfold byte. intros. lia. Qed.
+Lemma r1' : forall x, x / 4 * 4 + ((x mod 4) * 16) / 16 = x. Proof. intros. lia. Qed.
+Lemma r2 : forall x y z, byte y -> byte z -> (((x mod 4) * 16 + y / 16) mod 16) * 16 + ((y mod 16) * 4 + z / 64) / 4 = y.
+Proof. unfold byte. intros. lia. Qed.
+Lemma r2' : forall x y, byte y -> (((x mod 4) * 16 + y / 16) mod 16) * 16 + ((y mod 16) * 4) / 4 = y.
+Proof. unfold byte. intros. lia. Qed.
+Lemma r3 : forall y z, byte z -> (((y mod 16) * 4 + z / 64) mod 4) * 64 + z mod 64 = z.
+Proof. unfold byte. intros. lia. Qed.
+
+Lemma go_group : forall x y z r pads out, byte x -> byte y -> byte z ->
+  b64_go (b64_char (x / 4) :: b64_char ((x mod 4) * 16 + y / 16) ::
+          b64_char ((y mod 16) * 4 + z / 64) :: b64_char (z mod 64) :: r) 0 0 pads out =
+  b64_go r 0 0 0 (z :: y :: x :: out).
+Proof.
+  intros x y z r pads out Bx By Bz.
+  rewrite (go_char _ _ _ _ _ _ (s1 x Bx)).
+  rewrite (go_char _ _ _ _ _ _ (s2 x y By)).
+  rewrite (go_char _ _ _ _ _ _ (s3 y z Bz)).
+  rewrite (go_char _ _ _ _ _ _ (s4 z)).
+  rewrite (r1 x y By), (r2 x y z By Bz), (r3 y z Bz). reflexivity.
+Qed.
+
+Lemma go_tail1 : forall x out, byte x ->
+  b64_go [b64_char (x / 4); b64_char ((x mod 4) * 16); pad_char; pad_char] 0 0 0 out = Some (rev (x :: out)).
+Proof.
+  intros x out Bx.
+  rewrite (go_char _ _ _ _ _ _ (s1 x Bx)).
+  rewrite (go_char _ _ _ _ _ _ (s2' x)).
+  rewrite (r1' x). reflexivity.
+Qed.
+
+Lemma go_tail2 : forall x y out, byte x -> byte y ->
+  b64_go [b64_char (x / 4); b64_char ((x mod 4) * 16 + y / 16); b64_char ((y mod 16) * 4); pad_char] 0 0 0 out
+  = Some (rev (y :: x :: out)).
+Proof.
+  intros x y out Bx By.
+  rewrite (go_char _ _ _ _ _ _ (s1 x Bx)).
+  rewrite (go_char _ _ _ _ _ _ (s2 x y By)).
+  rewrite (go_char _ _ _ _ _ _ (s3' y)).
+  rewrite (r1 x y By), (r2' x y By). reflexivity.
+Qed.
+
+Lemma go_encode : forall n b, (length b <= n)%nat -> Forall byte b ->
+  forall out, b64_go (b64_encode b) 0 0 0 out = Some (rev out ++ b).
+Proof.
+  induction n as [|n IH]; intros b L F out.
+  - destruct b; [|cbn in L; lia]. cbn. now rewrite app_nil_r.
+  - destruct b as [|x [|y [|z r]]].
+    + cbn. now rewrite app_nil_r.
+    + inversion F; subst. cbn [b64_encode]. rewrite go_tail1 by assumption. reflexivity.
+    + inversion F as [|? ? Bx F']; subst. inversion F'; subst. cbn [b64_encode].
+      rewrite go_tail2 by assumption. cbn [rev]. now rewrite <- !app_assoc.
+    + inversion F as [|? ? Bx F']; subst. inversion F' as [|? ? By F'']; subst. inversion F'' as [|? ? Bz F3]; subst.
+      cbn [b64_encode]. rewrite go_group by assumption.
+      rewrite IH; [|cbn in L; lia|assumption]. cbn [rev]. now rewrite <- !app_assoc.
+Qed.
+
+Lemma encode_ascii : forall n b, (length b <= n)%nat -> Forall byte b ->
+  forallb (fun c => c <? 128) (b64_encode b) = true.
+Proof.
+  assert (A : forall v, v < 64 -> (b64_char v <? 128) = true) by (intros v L; apply (sext_facts v L)).
+  induction n as [|n IH]; intros b L F.
+  - destruct b; [reflexivity|cbn in L; lia].
+  - destruct b as [|x [|y [|z r]]].
+    + reflexivity.
+    + inversion F; subst. cbn [b64_encode forallb]. rewrite (A _ (s1 x H1)), (A _ (s2' x)). reflexivity.
+    + inversion F as [|? ? Bx F']; subst. inversion F' as [|? ? By ?]; subst. cbn [b64_encode forallb].
+      rewrite (A _ (s1 x Bx)), (A _ (s2 x y By)), (A _ (s3' y)). reflexivity.
+    + inversion F as [|? ? Bx F']; subst. inversion F' as [|? ? By F'']; subst. inversion F'' as [|? ? Bz F3]; subst.
+      cbn [b64_encode forallb]. rewrite (A _ (s1 x Bx)), (A _ (s2 x y By)), (A _ (s3 y z Bz)), (A _ (s4 z)).
+      cbn [andb]. apply IH; [cbn in L; lia|assumption].
+Qed.
+
+Theorem b64_roundtrip : forall b, Forall byte b -> b64_decode (b64_encode b) = Some b.
+Proof.
+  intros b F. unfold b64_decode. rewrite (encode_ascii (length b) b (le_n _) F).
+  now rewrite (go_encode (length b) b (le_n _) F).
+Qed.
+
+(* concrete corollaries: salt and digest survive the on-disk form and a save/load, for any hash *)
+Theorem digest_roundtrip_b64 : forall (H : N -> bytes -> bytes) ds utf8 a r salt d,
+  Forall byte salt -> Forall byte d ->
+  to_python H ds utf8 b64_decode a r (disk_of b64_encode salt d) = (r, Ok (PDigest salt d a)).
+Proof. intros. apply to_python_disk_pt; now apply b64_roundtrip. Qed.
+
+Theorem saveload_keeps_b64 : forall (H : N -> bytes -> bytes) ds utf8 a req dflt st salt d r1 dv,
+  Forall byte salt -> Forall byte d ->
+  c_val st = PDigest salt d a ->
+  setdefault H ds utf8 a (c_rng st) dflt = (r1, Ok dv) ->
+  cfg_saveload H ds utf8 b64_encode b64_decode a req dflt st = (mk_cst r1 (c_val st), Ok (c_val st)).
+Proof. intros. eapply saveload_keeps_pt; eauto; now apply b64_roundtrip. Qed.
+End Base64.
 
 (* ===================== non-vacuity: the hypotheses are satisfiable ===================== *)
 (* toy primitives: "base64" and "utf-8" are the identity; two toy hashes, one for each law (no function
